@@ -92,4 +92,44 @@ theorem scale_cartToRel (s : K) (hs : s ≠ 0) (b : Box K) (hd : b.vects.det ≠
     V3.cross, V3.get, V3.sub_def, V3.mk.injEq] at hd' ⊢
   refine ⟨?_, ?_, ?_⟩ <;> field_simp <;> ring
 
+/-! ### `vect_angle`: the cosine it computes is the cosine of the angle, lies in [-1, 1], and does not depend on the unit -/
+
+theorem angleCos_spec (u v : V3 K) (n1 n2 : K) (h1 : 0 < n1) (h2 : 0 < n2) :
+    angleCos u v n1 n2 * (n1 * n2) = V3.dot u v := by
+  have e1 : n1 ≠ 0 := ne_of_gt h1
+  have e2 : n2 ≠ 0 := ne_of_gt h2
+  simp only [angleCos, vdiv, V3.dot]
+  field_simp
+
+/-- Cauchy–Schwarz: with the exact norms the cosine lies in [-1, 1], so the clamp before `arccos` only absorbs rounding. -/
+theorem angleCos_sq_le_one (u v : V3 K) (n1 n2 : K) (h1 : 0 < n1) (h2 : 0 < n2)
+    (hn1 : n1 * n1 = V3.normSq u) (hn2 : n2 * n2 = V3.normSq v) :
+    angleCos u v n1 n2 * angleCos u v n1 n2 ≤ 1 := by
+  have hs := angleCos_spec u v n1 n2 h1 h2
+  have hp : 0 < n1 * n2 := mul_pos h1 h2
+  -- Lagrange: |u|²|v|² - (u·v)² = |u × v|² ≥ 0
+  have lag : V3.normSq u * V3.normSq v - V3.dot u v * V3.dot u v = V3.normSq (V3.cross u v) := by
+    simp only [V3.normSq, V3.dot, V3.cross]; ring
+  have hc : 0 ≤ V3.normSq (V3.cross u v) := by
+    simp only [V3.normSq, V3.dot]
+    exact add_nonneg (add_nonneg (mul_self_nonneg _) (mul_self_nonneg _)) (mul_self_nonneg _)
+  have key : (angleCos u v n1 n2 * angleCos u v n1 n2) * ((n1 * n2) * (n1 * n2)) ≤ 1 * ((n1 * n2) * (n1 * n2)) := by
+    have : (angleCos u v n1 n2 * angleCos u v n1 n2) * ((n1 * n2) * (n1 * n2)) = V3.dot u v * V3.dot u v := by
+      rw [← hs]; ring
+    rw [this]
+    have : (n1 * n2) * (n1 * n2) = V3.normSq u * V3.normSq v := by rw [← hn1, ← hn2]; ring
+    rw [one_mul, this]; linarith
+  exact le_of_mul_le_mul_right key (mul_pos hp hp)
+
+/-- the cosine computed by `vect_angle` does not depend on the unit of length. -/
+theorem angleCos_scale (s : K) (hs : s ≠ 0) (u v : V3 K) (n1 n2 : K) (h1 : 0 < n1) (h2 : 0 < n2) :
+    angleCos (scaleV s u) (scaleV s v) (|s| * n1) (|s| * n2) = angleCos u v n1 n2 := by
+  have e1 : n1 ≠ 0 := ne_of_gt h1
+  have e2 : n2 ≠ 0 := ne_of_gt h2
+  have ha : |s| ≠ 0 := abs_ne_zero.mpr hs
+  have hss : |s| * |s| = s * s := abs_mul_abs_self s
+  simp only [angleCos, vdiv, V3.dot, scaleV]
+  field_simp
+  linear_combination (-(u.x * v.x + u.y * v.y + u.z * v.z)) * hss
+
 end Atomman.C01
